@@ -83,6 +83,27 @@ CLAIMED.update({
         "design_ref": "DESIGN.md 4 U-term, U-index",
     },
 })
+CLAIMED.update({
+    "C12": {
+        "text": "Proof of the storage-side mechanisms policy independence rests on: the packed-node codec records size, form, padding and owner "
+                "so that the extent recycled on deletion is exactly the extent the memory manager granted (make/recycle lemma over the "
+                "contracts of the real makeFullNode and unlinkDownAndRecycle), every child is released exactly once on deletion, the header "
+                "word round-trips, and the free-list and array+grid managers honour the request/recycle contract the codec assumes. "
+                "Partial: the 'any sequence of API calls' quantifier is a history property; the relational facts between packed and "
+                "unpacked views (fillUnpacked/areDuplicates/hashNode) and the sparse storage form are not under contract.",
+        "note": COMMON_NOTE,
+        "design_ref": "DESIGN.md 4 U-codec, U-mm",
+    },
+    "C18": {
+        "text": "Proof per call for two of the five styles: free lists (requestChunk, recycleChunk, reuse lemma, address translation) and "
+                "array+grid (boundary-tag codec, resize keeps contents, allocateFromArray returns space above everything used and inside "
+                "the arena, recycleChunk coalesces with tagged neighbours and never alters a slot outside the merged region). Disjointness "
+                "of all live chunks over a history follows from these per-call contracts by an induction that is not machine-checked. "
+                "array+grid requestChunk, original grid, heap and malloc styles are not covered.",
+        "note": COMMON_NOTE + " The hole index (grid, lists) is an assumed stub: it writes only pointer slots inside holes.",
+        "design_ref": "DESIGN.md 4 U-mm",
+    },
+})
 NA_HEAP = ("no function contract within CBMC's reach can express it: the content is a recursion over the decision-diagram heap "
            "(needs an inductive 'node p denotes f' predicate and induction), in template/virtual C++ the front end rejects")
 NOT_APPLICABLE = {
@@ -92,9 +113,7 @@ NOT_APPLICABLE = {
     "C09": "image / vector-matrix products: " + NA_HEAP,
     "C10": "cross-forest copy: " + NA_HEAP + "; the scalar conversions are covered under C19",
     "C11": "enumeration and counting: " + NA_HEAP,
-    "C12": "work in progress in this session",
     "C14": "exchange files: stream I/O (fprintf/fscanf/iostream) plus one recursion over the diagram; outside CBMC contracts",
     "C17": "lifecycles: a history property over global registries, destructor order and std::vector; no per-function contract carries it",
-    "C18": "work in progress in this session",
     "C20": "partitioned saturation: " + NA_HEAP,
 }
